@@ -484,3 +484,55 @@ var quotientAimed = func() []uint64 {
 	}
 	return out
 }()
+
+// Wide48 draws 48-byte expander outputs by class.
+func Wide48(t *rapid.T, m *big.Int) []byte {
+	two384 := new(big.Int).Lsh(one, 384)
+	two192 := new(big.Int).Lsh(one, 192)
+	var v *big.Int
+	switch Pick(t, "k48", 10) {
+	case 9: // high part = floor(2^k / c) +- d for the modulus defect c = 2^256 - m (where folding hi*c back wraps), low part high
+		c := new(big.Int).Sub(new(big.Int).Lsh(one, 256), m)
+		k := uint(rapid.SampledFrom([]int{256, 255, 257, 320, 384}).Draw(t, "qk"))
+		hi := new(big.Int).Div(new(big.Int).Sub(new(big.Int).Lsh(one, k), one), c)
+		hi.Add(hi, big.NewInt(int64(rapid.IntRange(-1, 1).Draw(t, "qd"))))
+		hi.Mod(hi, new(big.Int).Lsh(one, 128))
+		lo := new(big.Int).Sub(new(big.Int).Lsh(one, 256), one)
+		if !rapid.Bool().Draw(t, "loAllOnes") {
+			lo.Sub(lo, Int(new(big.Int).Lsh(one, 200)).Draw(t, "lod"))
+		}
+		v = hi.Lsh(hi, 256).Add(hi, lo)
+	case 0:
+		v = new(big.Int).Sub(two384, big.NewInt(int64(rapid.IntRange(1, 3).Draw(t, "d")))) // all ones
+	case 1: // low half zero
+		hi := Int(two192).Draw(t, "hi")
+		v = hi.Lsh(hi, 192)
+	case 2: // high half zero
+		v = Int(two192).Draw(t, "lo")
+	case 3: // high half all ones
+		v = new(big.Int).Sub(two192, one)
+		v.Lsh(v, 192).Add(v, Int(two192).Draw(t, "lo"))
+	case 4: // multiples of m and neighbours
+		k := Int(new(big.Int).Lsh(one, 127)).Draw(t, "k")
+		v = k.Mul(k, m)
+		v.Add(v, big.NewInt(int64(rapid.IntRange(-2, 2).Draw(t, "d"))))
+	case 5: // value just around m, 2m
+		v = new(big.Int).Mul(m, big.NewInt(int64(rapid.IntRange(1, 3).Draw(t, "mult"))))
+		v.Add(v, big.NewInt(int64(rapid.IntRange(-2, 2).Draw(t, "d"))))
+	case 6: // limb patterns
+		v = new(big.Int)
+		for i := 0; i < 6; i++ {
+			v.Lsh(v, 64)
+			v.Or(v, new(big.Int).SetUint64(Limb().Draw(t, "l")))
+		}
+	default:
+		v = new(big.Int).SetBytes(RandBytes(t, "rnd", 48))
+	}
+	if v.Sign() < 0 {
+		v.Neg(v)
+	}
+	v.Mod(v, two384)
+	out := make([]byte, 48)
+	v.FillBytes(out)
+	return out
+}
